@@ -9,6 +9,7 @@
 //! Workshop on Principles and Practice of Consistency for Distributed Data (2020), Article no. 5,
 //! pp. 1-6.
 
+use std::cmp::Ordering;
 use std::collections::{HashMap, HashSet};
 use std::fmt::Debug;
 use std::hash::Hash;
@@ -417,7 +418,7 @@ pub fn merge<ID: Clone + Eq + Hash, C: Conditions>(
 
                 // If the access counters are the same, take the lower of the two access levels.
                 if member_state_1.access_counter == member_state.access_counter
-                    && member_state_1.access < member_state.access
+                    && is_lower_access(&member_state_1.access, &member_state.access)
                 {
                     member_state.access = member_state_1.access;
                 }
@@ -429,6 +430,28 @@ pub fn merge<ID: Clone + Eq + Hash, C: Conditions>(
     }
 
     next_state
+}
+
+/// Deterministic tie-break between two access values which were assigned concurrently.
+///
+/// Returns `true` if `a` is strictly lower than `b`: the lower access level wins and, if both
+/// levels are equal, the more restrictive conditions win (any conditions are lower than no
+/// conditions, lesser conditions are lower than greater ones).
+///
+/// The answer must not depend on the order in which two states are merged. That is why the
+/// `PartialOrd` implementation of `Access` can not be used here: it answers "can this access
+/// fulfil that request" and is not antisymmetric as soon as conditions are involved (two distinct
+/// access values can each be less than the other, or neither of them is).
+fn is_lower_access<C: Conditions>(a: &Access<C>, b: &Access<C>) -> bool {
+    match a.level.cmp(&b.level) {
+        Ordering::Less => true,
+        Ordering::Greater => false,
+        Ordering::Equal => match (a.conditions.as_ref(), b.conditions.as_ref()) {
+            (Some(_), None) => true,
+            (Some(a_conditions), Some(b_conditions)) => a_conditions < b_conditions,
+            _ => false,
+        },
+    }
 }
 
 #[cfg(test)]
